@@ -355,3 +355,48 @@ func lemmaSignVerifies(rnd io.Reader, priv *PrivateKey, hash []byte) {
 	Vassume(err == nil)
 	Vassert(Verify(&priv.PublicKey, hash, r, s))
 }
+
+// C12: unblinding inverts blinding, for every point on the curve and every blind key whose blinding factor is
+// not zero (a 1-in-N event for the hash-to-field output).
+//
+//@ lemma props C12
+func lemmaUnblindInvertsBlind(c elliptic.Curve, pk *PublicKey, bk *PrivateKey, context []byte) {
+	Vassume(c != nil && pk != nil && pk.X != nil && pk.Y != nil && ECOnCurve(c, BigVal(pk.X), BigVal(pk.Y)))
+	Vassume(bk != nil && bk.D != nil && BigVal(bk.D) >= 0 && BitLenOf(BigVal(bk.D)) <= 1<<43)
+	x, y := BigVal(pk.X), BigVal(pk.Y)
+	k := SpecBlindScalar(c, BigVal(bk.D), string(context))
+	n := ECOrder(c)
+	Vassume(k > 0 && k < n)
+	b, err := BlindPublicKeyWithContext(c, pk, bk, context)
+	Vassume(err == nil)
+	u, err2 := UnblindPublicKeyWithContext(c, b, bk, context)
+	Vassert(err2 == nil)
+	Vassert((ModInv(k, n)*k)%n == 1)
+	Vassert(BigVal(u.X) == ECMulX(c, (ModInv(k, n)*k)%n, x, y) && BigVal(u.Y) == ECMulY(c, (ModInv(k, n)*k)%n, x, y))
+	Vassert(BigVal(u.X) == x && BigVal(u.Y) == y)
+}
+
+// C12: blinding with two blind keys gives the same key in either order.
+//
+//@ lemma props C12
+func lemmaBlindCommutes(c elliptic.Curve, pk *PublicKey, b1, b2 *PrivateKey, ctx1, ctx2 []byte) {
+	Vassume(c != nil && pk != nil && pk.X != nil && pk.Y != nil && ECOnCurve(c, BigVal(pk.X), BigVal(pk.Y)))
+	Vassume(b1 != nil && b1.D != nil && BigVal(b1.D) >= 0 && BitLenOf(BigVal(b1.D)) <= 1<<43)
+	Vassume(b2 != nil && b2.D != nil && BigVal(b2.D) >= 0 && BitLenOf(BigVal(b2.D)) <= 1<<43)
+	x, y := BigVal(pk.X), BigVal(pk.Y)
+	k1 := SpecBlindScalar(c, BigVal(b1.D), string(ctx1))
+	k2 := SpecBlindScalar(c, BigVal(b2.D), string(ctx2))
+	n := ECOrder(c)
+	p1, e1 := BlindPublicKeyWithContext(c, pk, b1, ctx1)
+	Vassume(e1 == nil)
+	p12, e12 := BlindPublicKeyWithContext(c, p1, b2, ctx2)
+	Vassume(e12 == nil)
+	p2, e2 := BlindPublicKeyWithContext(c, pk, b2, ctx2)
+	Vassume(e2 == nil)
+	p21, e21 := BlindPublicKeyWithContext(c, p2, b1, ctx1)
+	Vassume(e21 == nil)
+	Vassert(k1 >= 0 && k2 >= 0)
+	Vassert(BigVal(p12.X) == ECMulX(c, (k2*k1)%n, x, y) && BigVal(p12.Y) == ECMulY(c, (k2*k1)%n, x, y))
+	Vassert(BigVal(p21.X) == ECMulX(c, (k1*k2)%n, x, y) && BigVal(p21.Y) == ECMulY(c, (k1*k2)%n, x, y))
+	Vassert(BigVal(p12.X) == BigVal(p21.X) && BigVal(p12.Y) == BigVal(p21.Y))
+}
